@@ -82,6 +82,12 @@ pub fn encode_lane(lf: &LaneFrame, hit_rng: &mut Rng, max_hits: usize) -> Vec<u8
         }
     }
     pad(&mut out, hit_rng);
+    // 1 in 10: the lane goes on sending padding for a while (whole data words of 0x00 behind its chip data)
+    if hit_rng.chance(1, 10) {
+        for _ in 0..hit_rng.range(9, 20) {
+            out.push(0x00);
+        }
+    }
     out
 }
 
